@@ -1113,8 +1113,14 @@ func registerObservers(m *cors.Middleware) {
 // argument (Stats(), String(), ...): a read-only accessor that an operator's dashboard
 // polls. Whatever it returns is ignored; it must not change anything (a lazily built
 // cache behind a getter is state all the same).
+// pokeThisRun: set per run from the plan (a third of the runs). Not every run polls: a
+// getter that creates state on its first call (a lazily built collector, a cache) would
+// otherwise exist from the very first observation on, and a defect that needs "nobody has
+// called it yet" could never show.
+var pokeThisRun bool
+
 func pokeGetters(m *cors.Middleware) {
-	if !observeUnknownAPI || m == nil {
+	if !observeUnknownAPI || !pokeThisRun || m == nil {
 		return
 	}
 	v := reflect.ValueOf(m)
